@@ -1,121 +1,144 @@
 import BfeVerif.C10.Norm
 /-!
   C10 — host → product resolution follows the host table.  Property theorems only.
+
+  `lc` is the rune map of `strings.ToLower` (`lowerC` on ASCII, Go's `unicode.ToLower` elsewhere): the
+  theorems hold for EVERY rune map, hence for arbitrary (also non-ASCII / invalid-UTF-8) host names — Go's
+  decoding of invalid bytes to U+FFFD happens before the model (driver / harness) and is exercised only.
+
+  FULL STATEMENT (false for the code as it is, see `C10_witness_ipv6_literal`):
+      ∀ lc es vips dp host vip, WF lc es →
+        lookupHostTagAndProduct lc es vips dp host vip = specLookup lc es vips dp host vip
+  where the specification keeps a bracketed IPv6 literal whole when it removes the port.
 -/
 namespace BfeVerif.C10
 open Trie
 
-/-- Refinement of the trie: for EVERY host table whose meaningful patterns are pairwise distinct after
-    normalisation — in whatever order Go's map iteration inserts them — and EVERY request host, the reversed-label
-    trie with splat entries returns the entry with exactly the request's labels, else the wildcard entry
-    `*.s` with the longest proper label suffix `s`, else nothing. -/
-theorem C10_trie_refines (es : List Entry) (host : List Char) (hwf : WF es) :
-    findHostRoute (buildHostRoute es) host = specFindHost es host := by
-  unfold findHostRoute specFindHost
-  rw [probePath_eq, get_build, lastMatch_eq_specExact es _ hwf, ppd_rev, List.findSome?_map]
-  have : ((fun p => lastMatch es (p ++ [star])) ∘ rev) =
-      fun s => specExact (patterns es) (star :: s) := by
+/-- The trie on the labels the code extracts: for EVERY host table whose meaningful patterns are pairwise
+    distinct after normalisation — in whatever order Go's map iteration inserts them — and EVERY request host,
+    the reversed-label trie with splat entries returns the entry with exactly these labels, else the
+    wildcard entry `*.s` with the longest proper label suffix `s`, else nothing. -/
+theorem C10_trie_labels (lc : Char → Char) (es : List Entry) (host : List Char) (hwf : WF lc es) :
+    findHostRoute lc (buildHostRoute lc es) host = specFindHostAt (patterns lc es) (probeLabels lc host) := by
+  unfold findHostRoute specFindHostAt
+  rw [probePath_eq, get_build, lastMatch_eq_specExact lc es _ hwf, ppd_rev, List.findSome?_map]
+  have : ((fun p => lastMatch lc es (p ++ [star])) ∘ rev) =
+      fun s => specExact (patterns lc es) (star :: s) := by
     funext s
     have h1 : rev s ++ [star] = rev (star :: s) := by simp [star]
-    simp only [Function.comp, h1, lastMatch_eq_specExact es _ hwf]
+    simp only [Function.comp, h1, lastMatch_eq_specExact lc es _ hwf]
   rw [this]
   simp only [specWild]
-  cases specExact (patterns es) (probeLabels host) <;> rfl
+  cases specExact (patterns lc es) (probeLabels lc host) <;> rfl
 
-/-- The whole chain of `LookupHostTagAndProduct`: host table (exact > longest wildcard) > VIP table >
-    default product > no product. -/
-theorem C10_chain (es : List Entry) (vips : List (String × String)) (dp : String)
-    (host : List Char) (vip : Option String) (hwf : WF es) :
-    lookupHostTagAndProduct es vips dp host vip = specLookup es vips dp host vip := by
+/-- Refinement against the specification, for every request host that is not a bracketed IPv6 literal. -/
+theorem C10_trie_refines_partial (lc : Char → Char) (es : List Entry) (host : List Char) (hwf : WF lc es)
+    (hb : (lower lc host).head? ≠ some '[') :
+    findHostRoute lc (buildHostRoute lc es) host = specFindHost lc es host := by
+  rw [C10_trie_labels lc es host hwf, specFindHost, specProbeLabels_eq lc host hb]
+
+/-- The whole chain of `LookupHostTagAndProduct`: host table (exact > longest wildcard) > VIP table (the
+    product of the address the connection arrived on, IPv4 = IPv4-mapped IPv6) > default product > no product. -/
+theorem C10_chain_partial (lc : Char → Char) (es : List Entry) (vips : List (List UInt8 × String)) (dp : String)
+    (host : List Char) (vip : Option (List UInt8)) (hwf : WF lc es) (hb : (lower lc host).head? ≠ some '[') :
+    lookupHostTagAndProduct lc es vips dp host vip = specLookup lc es vips dp host vip := by
   unfold lookupHostTagAndProduct specLookup
-  rw [C10_trie_refines es host hwf]
-  cases specFindHost es host with
+  rw [C10_trie_refines_partial lc es host hwf hb]
+  cases specFindHost lc es host with
   | some r => rfl
   | none =>
-    have hl : ∀ v, findVipRoute vips v = (vips.lookup v).map fun p => ({ product := p, tag := "" } : Route) := by
+    have hl : ∀ v, findVipRoute vips v =
+        ((to16 v).bind fun k => vips.lookup k).map fun p => ({ product := p, tag := "" } : Route) := by
       intro v
       simp only [findVipRoute]
       cases vips with
-      | nil => simp [List.lookup]
-      | cons a b => simp
+      | nil => cases to16 v <;> simp [List.lookup]
+      | cons a b => cases to16 v <;> simp
     dsimp only
     cases vip with
     | none => by_cases hd : dp = "" <;> simp [hd]
     | some v =>
       simp only [hl, Option.bind_some]
-      cases vips.lookup v with
+      cases (to16 v).bind fun k => vips.lookup k with
       | some p => rfl
       | none => by_cases hd : dp = "" <;> simp [hd]
 
+/-- The bracket hypothesis is needed: a configured IPv6-literal host can never be reached, because the code cuts
+    the request host at its FIRST colon (`[::1]` and `[::1]:80` both become `[`). -/
+theorem C10_witness_ipv6_literal :
+    ¬ ∀ (es : List Entry) (host : List Char), WF lowerC es →
+        findHostRoute lowerC (buildHostRoute lowerC es) host = specFindHost lowerC es host := by
+  intro h
+  have := h [⟨"[::1]".toList, ⟨"p", "t"⟩⟩] "[::1]:80".toList (by unfold WF; decide)
+  revert this
+  decide
+
+/-- VIP stage: with pairwise distinct configured addresses, the connection's VIP yields product `p` exactly when
+    `p` is configured for that address — a 4-byte address and its IPv4-mapped 16-byte form being the same
+    address; a VIP of any other length (and an empty VIP table) yields nothing. -/
+theorem C10_vip (vips : List (List UInt8 × String)) (hnd : (vips.map (·.1)).Nodup) (v : List UInt8) (p : String) :
+    findVipRoute vips v = some { product := p, tag := "" } ↔ ∃ k, to16 v = some k ∧ (k, p) ∈ vips := by
+  unfold findVipRoute
+  by_cases h0 : vips.length = 0
+  · have : vips = [] := List.eq_nil_of_length_eq_zero h0
+    subst this; simp
+  · simp only [h0, if_false]
+    cases hk : to16 v with
+    | none => simp
+    | some k =>
+      simp only [Option.some.injEq, exists_eq_left']
+      rw [← lookup_eq_some_iff vips hnd k p]
+      cases vips.lookup k with
+      | none => simp
+      | some q =>
+        simp only [Option.map_some, Option.some.injEq, Route.mk.injEq, and_true]
+
+/-- IPv4 and IPv4-mapped IPv6 forms of the connection address select the same product. -/
+theorem C10_vip_v4_mapped (vips : List (List UInt8 × String)) (a b c d : UInt8) :
+    findVipRoute vips [a, b, c, d] = findVipRoute vips [0, 0, 0, 0, 0, 0, 0, 0, 0, 0, 255, 255, a, b, c, d] := by
+  simp [findVipRoute, to16]
+
 /-- Exact beats wildcard: if some entry has exactly the request's labels, its route is the answer. -/
-theorem C10_exact_first (es : List Entry) (host : List Char) (r : Route) (hwf : WF es)
-    (h : (probeLabels host, r) ∈ patterns es) :
-    findHostRoute (buildHostRoute es) host = some r := by
-  rw [C10_trie_refines es host hwf]
-  unfold specFindHost specExact
-  cases hf : (patterns es).find? (fun p => decide (p.1 = probeLabels host)) with
-  | none =>
-    rw [List.find?_eq_none] at hf
-    exact absurd (by simp) (hf _ h)
-  | some p =>
-    -- the found pattern has the same labels; by distinctness it is the same entry
-    have hp := List.find?_some hf
-    have hm := List.mem_of_find?_eq_some hf
-    simp only [decide_eq_true_eq] at hp
-    have : p = (probeLabels host, r) := by
-      unfold WF at hwf
-      have key : ∀ (ps : List (List Label × Route)), (ps.map (·.1)).Nodup →
-          ∀ a b, a ∈ ps → b ∈ ps → a.1 = b.1 → a = b := by
-        intro ps
-        induction ps with
-        | nil => intro _ a b ha; cases ha
-        | cons x xs ih =>
-          intro hnd a b ha hb hab
-          simp only [List.map_cons, List.nodup_cons] at hnd
-          rcases List.mem_cons.mp ha with rfl | ha' <;> rcases List.mem_cons.mp hb with rfl | hb'
-          · rfl
-          · exact absurd (by rw [hab]; exact List.mem_map_of_mem hb') hnd.1
-          · exact absurd (by rw [← hab]; exact List.mem_map_of_mem ha') hnd.1
-          · exact ih hnd.2 a b ha' hb' hab
-      exact key _ hwf _ _ hm h hp
-    dsimp only
-    rw [hf, this]
-    rfl
+theorem C10_exact_first (lc : Char → Char) (es : List Entry) (host : List Char) (r : Route) (hwf : WF lc es)
+    (h : (probeLabels lc host, r) ∈ patterns lc es) :
+    findHostRoute lc (buildHostRoute lc es) host = some r := by
+  rw [C10_trie_labels lc es host hwf]
+  have := (specExact_eq_some_iff (patterns lc es) hwf (probeLabels lc host) r).mpr h
+  simp [specFindHostAt, this]
 
-/-- A wildcard answer is the *longest* one: when the trie answers from a wildcard entry `*.s`, no entry
-    with exactly the request's labels exists and no wildcard entry with a longer matching suffix exists. -/
-theorem C10_wild_longest (es : List Entry) (host : List Char) (hwf : WF es)
-    (hne : specExact (patterns es) (probeLabels host) = none) :
-    findHostRoute (buildHostRoute es) host =
-      (properSuffixes (probeLabels host)).findSome? fun s => specExact (patterns es) (star :: s) := by
-  rw [C10_trie_refines es host hwf]
-  simp [specFindHost, hne, specWild]
+/-- A wildcard answer is the *longest* one. -/
+theorem C10_wild_longest (lc : Char → Char) (es : List Entry) (host : List Char) (hwf : WF lc es)
+    (hne : specExact (patterns lc es) (probeLabels lc host) = none) :
+    findHostRoute lc (buildHostRoute lc es) host =
+      (properSuffixes (probeLabels lc host)).findSome? fun s => specExact (patterns lc es) (star :: s) := by
+  rw [C10_trie_labels lc es host hwf]
+  simp [specFindHostAt, hne, specWild]
 
-/-- The request-host normalisation of the code, for every trie: `:port` is ignored, ONE trailing dot is ignored,
-    ASCII case is ignored. -/
-theorem C10_norm (t : Trie Route) (h port : List Char) (hc : ':' ∉ h) :
-    findHostRoute t (h ++ ':' :: port) = findHostRoute t h ∧
-    (h.getLast? ≠ some '.' → findHostRoute t (h ++ ['.']) = findHostRoute t h) ∧
-    findHostRoute t (h.map upperAscii) = findHostRoute t h := by
+/-- The request-host normalisation of the code, for every trie and every rune map that leaves `:` and `.` alone:
+    `:port` is ignored, ONE trailing dot is ignored; and with the ASCII map, ASCII case is ignored. -/
+theorem C10_norm (lc : Char → Char) (hk : KeepsSep lc) (t : Trie Route) (h port : List Char) (hc : ':' ∉ h) :
+    findHostRoute lc t (h ++ ':' :: port) = findHostRoute lc t h ∧
+    (h.getLast? ≠ some '.' → findHostRoute lc t (h ++ ['.']) = findHostRoute lc t h) ∧
+    findHostRoute lowerC t (h.map upperAscii) = findHostRoute lowerC t h := by
   unfold findHostRoute
-  refine ⟨by rw [probePath_port h port hc], fun hd => by rw [probePath_dot h hc hd], by rw [probePath_case]⟩
+  refine ⟨by rw [probePath_port lc hk h port hc], fun hd => by rw [probePath_dot lc hk h hc hd], by rw [probePath_case]⟩
 
-/-- Independence of Go's map iteration order: for a well-formed host table every insertion order of the
-    entries yields a trie with the same answers. -/
-theorem C10_order_independent (es es' : List Entry) (hp : es.Perm es') (hwf : WF es) (host : List Char) :
-    findHostRoute (buildHostRoute es) host = findHostRoute (buildHostRoute es') host := by
-  have hpp := patterns_perm es es' hp
-  have hwf' : WF es' := (List.Perm.nodup_iff (hpp.map _)).mp hwf
-  rw [C10_trie_refines es host hwf, C10_trie_refines es' host hwf']
-  have he : ∀ l, specExact (patterns es) l = specExact (patterns es') l :=
+/-- Independence of Go's map iteration order. -/
+theorem C10_order_independent (lc : Char → Char) (es es' : List Entry) (hp : es.Perm es') (hwf : WF lc es)
+    (host : List Char) :
+    findHostRoute lc (buildHostRoute lc es) host = findHostRoute lc (buildHostRoute lc es') host := by
+  have hpp := patterns_perm lc es es' hp
+  have hwf' : WF lc es' := (List.Perm.nodup_iff (hpp.map _)).mp hwf
+  rw [C10_trie_labels lc es host hwf, C10_trie_labels lc es' host hwf']
+  have he : ∀ l, specExact (patterns lc es) l = specExact (patterns lc es') l :=
     fun l => specExact_perm _ _ hpp hwf l
-  simp only [specFindHost, specWild, he]
+  simp only [specFindHostAt, specWild, he]
 
 /-- The hypothesis `WF` is needed: with two configured names that differ only in case (both accepted by
     `HostRuleConfLoad`) the answer depends on the order in which Go's map iteration inserts them. -/
 theorem C10_witness_order_dependent :
     ¬ ∀ (es es' : List Entry), es.Perm es' → ∀ host,
-        findHostRoute (buildHostRoute es) host = findHostRoute (buildHostRoute es') host := by
+        findHostRoute lowerC (buildHostRoute lowerC es) host = findHostRoute lowerC (buildHostRoute lowerC es') host := by
   intro h
   let e1 : Entry := ⟨"A.b".toList, ⟨"p1", "t1"⟩⟩
   let e2 : Entry := ⟨"a.b".toList, ⟨"p2", "t2"⟩⟩
@@ -129,13 +152,18 @@ def exTable : List Entry :=
   [⟨"example.org".toList, ⟨"pA", "t1"⟩⟩, ⟨"*.example.org".toList, ⟨"pB", "t2"⟩⟩,
    ⟨"*.Foo.example.org.".toList, ⟨"pC", "t3"⟩⟩, ⟨"a.*.org".toList, ⟨"pD", "t4"⟩⟩]
 
-example : WF exTable := by unfold WF; decide
-example : lookupHostTagAndProduct exTable [] "" "EXAMPLE.org.:8080".toList none = some ⟨"pA", "t1"⟩ := by decide
-example : lookupHostTagAndProduct exTable [] "" "x.y.example.org".toList none = some ⟨"pB", "t2"⟩ := by decide
-example : lookupHostTagAndProduct exTable [] "" "x.foo.example.org".toList none = some ⟨"pC", "t3"⟩ := by decide
-example : lookupHostTagAndProduct exTable [] "" "foo.example.org".toList none = some ⟨"pB", "t2"⟩ := by decide
-example : lookupHostTagAndProduct exTable [("10.0.0.1", "pV")] "pDef" "a.b.org".toList (some "10.0.0.1") = some ⟨"pV", ""⟩ := by decide
-example : lookupHostTagAndProduct exTable [("10.0.0.1", "pV")] "pDef" "a.b.org".toList (some "10.0.0.2") = some ⟨"pDef", ""⟩ := by decide
-example : lookupHostTagAndProduct exTable [("10.0.0.1", "pV")] "" "org".toList none = none := by decide
+def v4 : List UInt8 := [10, 0, 0, 1]
+def v4m : List UInt8 := [0, 0, 0, 0, 0, 0, 0, 0, 0, 0, 255, 255, 10, 0, 0, 1]
+
+example : WF lowerC exTable := by unfold WF; decide
+example : KeepsSep lowerC := lowerC_keepsSep
+example : lookupHostTagAndProduct lowerC exTable [] "" "EXAMPLE.org.:8080".toList none = some ⟨"pA", "t1"⟩ := by decide
+example : lookupHostTagAndProduct lowerC exTable [] "" "x.y.example.org".toList none = some ⟨"pB", "t2"⟩ := by decide
+example : lookupHostTagAndProduct lowerC exTable [] "" "x.foo.example.org".toList none = some ⟨"pC", "t3"⟩ := by decide
+example : lookupHostTagAndProduct lowerC exTable [] "" "foo.example.org".toList none = some ⟨"pB", "t2"⟩ := by decide
+example : lookupHostTagAndProduct lowerC exTable [(v4m, "pV")] "pDef" "a.b.org".toList (some v4) = some ⟨"pV", ""⟩ := by decide
+example : lookupHostTagAndProduct lowerC exTable [(v4m, "pV")] "pDef" "a.b.org".toList (some [10, 0, 0, 2]) = some ⟨"pDef", ""⟩ := by decide
+example : lookupHostTagAndProduct lowerC exTable [(v4m, "pV")] "pDef" "a.b.org".toList (some [10, 0, 0]) = some ⟨"pDef", ""⟩ := by decide
+example : lookupHostTagAndProduct lowerC exTable [(v4m, "pV")] "" "org".toList none = none := by decide
 
 end BfeVerif.C10
